@@ -171,6 +171,17 @@ type rootRec struct {
 	content   map[string][]byte
 	pins      int  // outstanding Reference(root, {}) calls
 	persisted bool // Database.Commit(root) (or of a parent referencing it) returned
+	links     []common.Hash // roots referenced from leaf values of this trie (in key order)
+}
+
+func linksOf(content map[string][]byte) []common.Hash {
+	var out []common.Hash
+	for _, k := range sortedKeys(content) {
+		if h, is := linkOf(content[k]); is {
+			out = append(out, h)
+		}
+	}
+	return out
 }
 
 type work struct {
@@ -250,8 +261,8 @@ func (e *env13) alive() map[common.Hash]bool {
 					if !al[p.hash] {
 						continue
 					}
-					for _, k := range sortedKeys(p.content) {
-						if h, is := linkOf(p.content[k]); is && h == r.hash {
+					for _, h := range p.links {
+						if h == r.hash {
 							ok = true
 						}
 					}
@@ -294,10 +305,8 @@ func (e *env13) markPersisted(h common.Hash) {
 		return
 	}
 	r.persisted = true
-	for _, k := range sortedKeys(r.content) {
-		if ch, is := linkOf(r.content[k]); is {
-			e.markPersisted(ch)
-		}
+	for _, ch := range r.links {
+		e.markPersisted(ch)
 	}
 }
 
@@ -711,7 +720,7 @@ func (e *env13) opCommit(w *work) {
 	}
 	rec := e.rec(root)
 	if rec == nil {
-		rec = &rootRec{hash: root, kind: w.kind, gen: w.gen, limit: w.limit, content: copyModel(w.model)}
+		rec = &rootRec{hash: root, kind: w.kind, gen: w.gen, limit: w.limit, content: copyModel(w.model), links: linksOf(w.model)}
 		e.roots = append(e.roots, rec)
 	} else {
 		r.Probe("same-root-committed-again")
